@@ -127,6 +127,11 @@ func checkGuards(r *Reporter, p *Prog, rule string, rows []GuardRow) {
 		chain string
 	}
 	ech := map[string]embCH{}
+	// helpers of a type whose fields are guarded by its OWNER's mutex (GuardRow.ViaRecvType): "Type.method"
+	// -> what the calling owner method must hold; ownerLock is the pseudo path of that mutex inside them
+	const ownerLock = "<owner>."
+	ownerCH := map[string]embCH{}
+	var ownerNeeds map[string]embCH
 	// recvRel: is `want` a mutex reached from the function's own receiver through fields? (chain, ok)
 	recvRel := func(want, recvPath, mutex string) (string, bool) {
 		if recvPath == "" || !strings.HasPrefix(want, recvPath+".") || !strings.HasSuffix(want, "."+mutex) {
@@ -146,6 +151,7 @@ func checkGuards(r *Reporter, p *Prog, rule string, rows []GuardRow) {
 		aggs = map[aggKey]*agg{}
 		touched = map[string]int{}
 		needs = map[string]*fnNeed{}
+		ownerNeeds = map[string]embCH{}
 		callSites = map[string]int{}
 		escapes = map[string]string{}
 		for _, pkg := range pkgList {
@@ -175,6 +181,9 @@ func checkGuards(r *Reporter, p *Prog, rule string, rows []GuardRow) {
 				}
 				if e, ok := ech[recvT+"."+fd.Name.Name]; ok && recvPath != "" {
 					entry = entry.with(recvPath+e.chain, e.mode)
+				}
+				if e, ok := ownerCH[recvT+"."+fd.Name.Name]; ok {
+					entry = entry.with(ownerLock+e.row.Mutex, e.mode)
 				}
 				// conditional-lock idiom (GuardRow.CondLock): function-like scopes (the declaration or
 				// a function literal) that take the mutex under a tabled condition
@@ -279,6 +288,47 @@ func checkGuards(r *Reporter, p *Prog, rule string, rows []GuardRow) {
 								}
 							}
 						}
+					}
+					if e, isOwner := ownerCH[rt.Obj().Name()+"."+fn.Name()]; isOwner && !seen[x] {
+						seen[x] = true
+						k := aggKey{fkey, rt.Obj().Name() + "." + fn.Name() + "()", "CH-owner-" + e.mode.String()}
+						a := aggs[k]
+						if a == nil {
+							a = &agg{first: p.posStr(x.Pos())}
+							aggs[k] = a
+						}
+						a.n++
+						want := ""
+						switch {
+						case recvT == e.row.ViaRecvType && recvPath != "":
+							want = recvPath + "." + e.row.Mutex
+						case recvT == e.row.Type:
+							want = ownerLock + e.row.Mutex
+							if held[want] < e.mode {
+								if cur, has := ownerNeeds[fkey]; !has || cur.mode < e.mode {
+									ownerNeeds[fkey] = embCH{e.row, e.mode, ""}
+								}
+							}
+						default:
+							a.bad = append(a.bad, fmt.Sprintf("%s: %s.%s (which touches fields guarded by the mutex of %s) is called outside a method of %s", p.posStr(x.Pos()), rt.Obj().Name(), fn.Name(), e.row.ViaRecvType, e.row.ViaRecvType))
+							return
+						}
+						if held[want] < e.mode && !condLocked(x.Pos(), want) {
+							if recvT == e.row.ViaRecvType {
+								// an unexported method of the owner that relies on its own caller: the usual inference
+								fnN := needs[fkey]
+								if fnN == nil {
+									fnN = &fnNeed{row: e.row, recvOnly: true}
+									needs[fkey] = fnN
+								}
+								if e.mode > fnN.mode {
+									fnN.mode = e.mode
+								}
+								fnN.chain = "." + e.row.Mutex
+							}
+							a.bad = append(a.bad, fmt.Sprintf("%s: call of %s.%s needs %s held %s, held: %s", p.posStr(x.Pos()), rt.Obj().Name(), fn.Name(), displayPath(want), e.mode, held))
+						}
+						return
 					}
 					if e, isEmb := ech[rt.Obj().Name()+"."+fn.Name()]; isEmb && !seen[x] {
 						seen[x] = true
@@ -432,11 +482,23 @@ func checkGuards(r *Reporter, p *Prog, rule string, rows []GuardRow) {
 					base += embeddedChain(sel, hops)
 					want := base + "." + gf.row.Mutex
 					if gf.row.ViaRecvType != "" {
-						if recvT != gf.row.ViaRecvType || recvPath == "" {
+						switch {
+						case recvT == gf.row.ViaRecvType && recvPath != "":
+							want = recvPath + "." + gf.row.Mutex
+						case recvT == gf.row.Type && !fd.Name.IsExported():
+							// an unexported helper of the guarded type itself (a link/unlink primitive of the
+							// element): it runs under the OWNER's mutex, which its callers - methods of the
+							// owner - must hold; inferred like any caller-holds helper
+							want = ownerLock + gf.row.Mutex
+							if held[want] < need {
+								if cur, has := ownerNeeds[fkey]; !has || cur.mode < need {
+									ownerNeeds[fkey] = embCH{gf.row, need, ""}
+								}
+							}
+						default:
 							a.bad = append(a.bad, fmt.Sprintf("%s: %s.%s is accessed outside a method of %s, whose mutex guards it", p.posStr(x.Pos()), gf.row.Type, gf.field, gf.row.ViaRecvType))
 							return
 						}
-						want = recvPath + "." + gf.row.Mutex
 					}
 					if held[want] >= need && len(stack) >= 1 {
 						// the guarded container itself (map, slice, channel) handed out by a method that
@@ -560,6 +622,20 @@ func checkGuards(r *Reporter, p *Prog, rule string, rows []GuardRow) {
 		}
 		// infer further caller-holds helpers from this round's failures
 		changed := false
+		for fkey, on := range ownerNeeds {
+			fd := fnDecls[fkey]
+			if fd == nil || fd.Recv == nil {
+				continue
+			}
+			mk := recvTypeName(fd) + "." + fd.Name.Name
+			if escapes[mk] != "" || callSites[mk] == 0 {
+				continue
+			}
+			if cur, ok := ownerCH[mk]; !ok || cur.mode < on.mode {
+				ownerCH[mk] = on
+				changed = true
+			}
+		}
 		for fkey, fnN := range needs {
 			fd := fnDecls[fkey]
 			if fd == nil || !fnN.recvOnly || fd.Name.IsExported() || fd.Recv == nil {
